@@ -48,6 +48,14 @@ def judge(case, impl_out, spec):
     return None
 
 
+def second_pass(run, cs, impl_out):
+    """no accepted context may owe its acceptance to how long the evaluation took: a sample of the same operations with the
+    slow-evaluation threshold below any measurable time (the pass of checks/c07.py)"""
+    from checks import c07
+
+    return c07.second_pass(run, cs, impl_out)
+
+
 def nontrivial(case, impl_out):
     return not impl_out.startswith(("reject ndims", "err"))
 
